@@ -69,8 +69,8 @@ P("C05", ["COH", "CNT", "FIELDS", "SF1", "SF3", "SF5", "SF6", "ESC", "SF4"],
   "field agreement; the wrapper's own counting / caching rules are those of C15.",
   "bit-equality of the user's arithmetic between two calls (trusted: same call); determinism of user code",
   design="3/C05")
-P("C06", ["ORIENT", "FIELDS", "MEM", "OWN", "FDB", "BIND", "SFREAD"],
-  "(OWN) decoding a checkpoint does not write into it, (FDB) differencing options depend on the caller's arguments only, (BIND) the line search sees the global iteration number, (SFREAD) the solver reads no evaluation history of the wrapper, which a restart cannot reproduce; (ORIENT) orientation typing of the checkpoint decoder: increments accumulated from the newest pair backwards, "
+P("C06", ["ORIENT", "FIELDS", "MEM", "OWN", "FDB", "BIND", "SFREAD", "UNITS"],
+  "(UNITS) values read back from a checkpoint are used in the unit they were stored in (writer/reader agreement on the scaling factor); (OWN) decoding a checkpoint does not write into it, (FDB) differencing options depend on the caller's arguments only, (BIND) the line search sees the global iteration number, (SFREAD) the solver reads no evaluation history of the wrapper, which a restart cannot reproduce; (ORIENT) orientation typing of the checkpoint decoder: increments accumulated from the newest pair backwards, "
   "subtracted from the newest point, appended oldest-first, identical shape for X and G -- the inverse of the "
   "encoder fixed by SIB; (FIELDS) every field a restart reads is written by every result and lands in the live "
   "variable it came from; (MEM) the refill is bounded by maxcor+1 points and drops from the left, so reducing "
@@ -102,8 +102,8 @@ P("C09", ["SIGN", "ALPHA", "FREE", "RATIOFORM", "SUBFORM", "KFACT", "SHARED", "O
   "(RATIOFORM) ratios are (bound - x_c)/dHat; (SUBFORM) reduced gradient r = g + theta(x_c - x) - W M c and step "
   "dHat = -(1/theta)(rHat + (1/theta) Z^T W v) match the direct primal method up to algebraic equivalence.",
   "the solve of the reduced system itself (K, LEL^T, Sherman-Morrison-Woodbury), model decrease, descent direction", design="3/C09")
-P("C10", ["MEM", "BFGSFORM", "OFFER", "RETRY"],
-  "(RETRY) the retry branch cuts the stored points to one when it resets the matrices, so matrices and stored pairs agree; The four memory-discipline clauses of C10 are decided package-wide over every insertion / removal / rebinding "
+P("C10", ["MEM", "BFGSFORM", "OFFER", "RETRY", "MATSOWN"],
+  "(MATSOWN) the fields of the compact representation are assigned only inside bfgsmats.py, where BFGSFORM checks them; (RETRY) the retry branch cuts the stored points to one when it resets the matrices, so matrices and stored pairs agree; The four memory-discipline clauses of C10 are decided package-wide over every insertion / removal / rebinding "
   "of the point and gradient histories (MEM): guarded by the strict curvature test on the inserted pair, "
   "reject-no-touch for history and matrices, bounded FIFO (<= maxcor pairs, oldest dropped), lock-step of X and G; "
   "(BFGSFORM) theta = y.y/s.y of the newest pair and S, Y, L, D, W, the middle-matrix factors assembled from the "
@@ -111,14 +111,14 @@ P("C10", ["MEM", "BFGSFORM", "OFFER", "RETRY"],
   "offered to the memory.",
   "equality of the compact representation with dense BFGS, positive definiteness, secant equation (matrix "
   "identities in floating point)", design="3/C10")
-P("C11", ["BOX", "DOWNHILL", "LSBUD", "SIGN", "RATIOFORM"],
-  "(BOX) the three trial-point sites of line_search are projections onto [lb, ub]; (DOWNHILL) returned step is "
+P("C11", ["BOX", "DOWNHILL", "LSBUD", "SIGN", "RATIOFORM", "FDB"],
+  "(FDB) the stencil of a finite-difference gradient evaluated at a trial point is bounded by the caller's box; (BOX) the three trial-point sites of line_search are projections onto [lb, ub]; (DOWNHILL) returned step is "
   "None or strictly downhill w.r.t. the start value (a zero step can never be returned under it); (LSBUD) one "
   "evaluation per loop iteration, counter guard `< max_iter`, SciPy's DCSRCH._iterate calls no user function "
   "(checked on SciPy's source); (SIGN) the maximum step is non-negative.",
   "step in (0, stpmax] inside SciPy's DCSRCH (trusted contract)", design="3/C11")
-P("C12", ["CONST", "BIND", "ARGNAME", "DIRECTION", "OFFER", "STEPINIT", "BFGSFORM", "CPFORM", "ESC", "SF4", "NITOFF"],
-  "(CONST) the evaluated defaults of the line-search / curvature constants equal those of Algorithm 778 at every "
+P("C12", ["CONST", "BIND", "ARGNAME", "DIRECTION", "OFFER", "STEPINIT", "BFGSFORM", "CPFORM", "ESC", "SF4", "NITOFF", "ORIENT"],
+  "(ORIENT) a run continued through a checkpoint restores the pairs in order; (CONST) the evaluated defaults of the line-search / curvature constants equal those of Algorithm 778 at every "
   "sibling signature; (BIND) each constant reaches its consumer in the right slot (minimize -> line_search -> "
   "DCSRCH / dcsrch; eps_SY -> update_lbfgs_matrices / filter -> is_update_X_and_G); structural faithfulness of "
   "the iteration: (ARGNAME) no crossed argument slots at any internal call, (DIRECTION) d = subspace point - x from "
@@ -129,8 +129,8 @@ P("C12", ["CONST", "BIND", "ARGNAME", "DIRECTION", "OFFER", "STEPINIT", "BFGSFOR
   "selects the first-iteration policy is the same in a retained state and in a run stopped there.",
   "iterate-by-iterate agreement with the Fortran reference in floating point; the subspace solve; SciPy's dcsrch",
   design="3/C12")
-P("C13", ["FILT", "SEED", "FLOW", "MEM", "FILTERWALK", "DOWNHILL"],
-  "(FILT) must-pass-through with path-correlation pruning: from every call of the user's update function every "
+P("C13", ["FILT", "SEED", "FLOW", "MEM", "FILTERWALK", "DOWNHILL", "STEPINIT"],
+  "(STEPINIT) the line search starts from the caller's (possibly redefined) f0, not from a value memoised by the wrapper; (FILT) must-pass-through with path-correlation pruning: from every call of the user's update function every "
   "path to a consumer of G (matrix update, callback state, returned result) passes the curvature filter whose "
   "result rebinds X, G; (SEED) the filter seeds its output with the newest element and only grows on the left; "
   "(FLOW) argument / target order of both calls; (MEM) the filter's insertions are guarded by the curvature test "
@@ -152,19 +152,19 @@ P("C15", ["SF1", "SF2", "SF3", "SF4", "SF5", "SF6", "SF7"],
   "(SF4), one increment per user call (SF5), who-may-call the raw user functions (SF6), the differencer gets the "
   "counting wrapper, x0=self.x, f0=self.f after _update_fun (SF7).", "nothing (clause-complete under 2.1)",
   design="3/C15")
-P("C16", ["FDB", "MODES", "BOX", "SF7"],
-  "(BOX)+(FDB) the differencer raises iff its x0 is outside `bounds`: x0 is the wrapper's cached point, which is "
+P("C16", ["FDB", "MODES", "BOX", "SF7", "CNT", "SF5"],
+  "(CNT, SF5) nfev counts every objective evaluation incl. stencil points, also across a restart; (BOX)+(FDB) the differencer raises iff its x0 is outside `bounds`: x0 is the wrapper's cached point, which is "
   "a projection onto the caller's box, and `bounds` is that same box for every finite-difference mode; (MODES) "
   "each documented mode has a handler on both sides; (SF7) stencil evaluations go through the counting wrapper.",
   "agreement of the final objective value with the exact-gradient solution to the accuracy of the scheme",
   design="3/C16")
-P("C17", ["SCALER", "UNITS", "SF4", "SCALEPOS"],
-  "(SCALEPOS) the packaged scaler returns a positive factor; (SCALER) one call site outside loops, arguments = clipped start point, unscaled gradient, lb, ub, result is the "
+P("C17", ["SCALER", "UNITS", "SF4", "SCALEPOS", "SCALEUSE", "OWN"],
+  "(SCALEUSE) outside the wrapper the factor is read only to scale f0/grad once and to un-scale the target test, (OWN) the packaged scaler does not write the arrays it is handed; (SCALEPOS) the packaged scaler returns a positive factor; (SCALER) one call site outside loops, arguments = clipped start point, unscaled gradient, lb, ub, result is the "
   "only write of the factor outside the class; (UNITS) raw/scaled unit typing: target tested on the unscaled "
   "value, ftol test compares like units, results and line search get scaled values; (SF4) scale applied inside "
   "the accessors.", "equality of two complete runs (relation between trajectories)", design="3/C17")
-P("C18", ["SIB", "ESC", "MEM", "DIAG"],
-  "(SIB) every LbfgsInvHessProduct is built from (diff(X), diff(G)) in that order (or the checkpoint's pairs with "
+P("C18", ["SIB", "ESC", "MEM", "DIAG", "RETRY"],
+  "(RETRY) after a failed search the retained point and gradient are the newest stored ones; (SIB) every LbfgsInvHessProduct is built from (diff(X), diff(G)) in that order (or the checkpoint's pairs with "
   "one slice); (ESC) stored points / gradients are private and never written afterwards, so pairs are bit-exact "
   "differences of visited points; (MEM) <= maxcor pairs each with s.y > eps*y.y >= 0; (DIAG) the diagonal utility "
   "probes e_i, reads and writes index i, over range(n), with a fresh probe per iteration.",
